@@ -124,6 +124,7 @@ type env struct {
 	now1Pending, mustExit   bool
 	swapped, overWait       bool
 	syncCount, readyFails   int
+	ctxReadyFails           int
 	jumps                   int
 	reqLog                  []string
 	sentExec                []*remoteworker.DesiredState_Executing
@@ -134,7 +135,10 @@ type env struct {
 	// certainIdle: the scheduler explicitly ordered idle, or desired nothing
 	// while the worker reported idle. Only then is termination demanded.
 	certainIdle bool
-	exitNote    string
+	// lostIdle: the reply to the last request was lost (CANCELED) but it
+	// ordered idle / desired nothing while the worker was not executing.
+	lostIdle bool
+	exitNote string
 	d, n        time.Duration
 
 	// Monitor state.
@@ -303,6 +307,15 @@ func (f fakeExecutor) CheckReadiness(ctx context.Context) error {
 	e.x.ResetLocal(fmt.Sprintf("CheckReadiness=%d/%v", c, e.termBefore))
 	e.mu.Lock()
 	defer e.mu.Unlock()
+	if ctx.Err() != nil {
+		// Model of the real runner client (a gRPC call): it fails once the
+		// context it was given is cancelled, i.e. always after shutdown
+		// began unless the caller swapped the context.
+		e.runBoundary = true
+		e.expectBackoff = true
+		e.ctxReadyFails++
+		return status.Error(codes.Canceled, "context canceled")
+	}
 	if c == 1 {
 		e.readyFails++
 		e.runBoundary = true
@@ -392,7 +405,7 @@ func (g fakeGroup) Go(routine program.Routine) {
 		e.inSelect = false
 		e.expectBackoff = false
 		e.exitNote = fmt.Sprintf("exit(err=%v,shutdown=%v)", err, e.shutdown)
-		if e.mayThink && !(e.now > e.d) {
+		if e.mayThink && !e.lostIdle && !(e.now > e.d) {
 			e.fail("exit/scheduler-may-think-executing", "worker thread terminated at clock %v (shutdown begun: %v) although the last exchange (%v) left the scheduler able to believe it is executing until %v", e.now, e.shutdown, e.reqLog, e.d)
 		}
 		e.mu.Unlock()
@@ -564,6 +577,7 @@ func (s fakeScheduler) Synchronize(ctx context.Context, in *remoteworker.Synchro
 		e.d = e.n + grace
 	}
 	e.certainIdle = false
+	e.lostIdle = false
 	// Reply menu.
 	var menu []reply
 	if count <= e.cfg.budget {
@@ -620,6 +634,7 @@ func (s fakeScheduler) Synchronize(ctx context.Context, in *remoteworker.Synchro
 	e.x.Logf("Synchronize #%d: request %s (ctx cancelled: %v), executors: %s", count, desc, ctx.Err() != nil, e.descExecs())
 
 	var r reply
+	lost := false
 	if over {
 		// Budget exhausted: behave like a long poll that is only
 		// answered once shutdown has begun, and order idle.
@@ -636,6 +651,14 @@ func (s fakeScheduler) Synchronize(ctx context.Context, in *remoteworker.Synchro
 		e.x.ResetLocal("Synchronize:final/" + tag)
 		e.point("Synchronize:final")
 		r = rIdle
+		// A long poll that was issued with the context that shutdown
+		// cancels is interrupted: the gRPC client returns CANCELED and
+		// the scheduler never answered (it may still hand work to that
+		// stream, so its belief stays as it was when the request went out).
+		if ctx.Err() != nil {
+			r = rErr
+			lost = true
+		}
 	} else {
 		e.x.ResetLocal("Synchronize/" + tag)
 		f := 0
@@ -648,11 +671,32 @@ func (s fakeScheduler) Synchronize(ctx context.Context, in *remoteworker.Synchro
 			r = menu[e.choose("Synchronize:reply["+replyList(menu)+"]", len(menu), true)]
 		}
 	}
-	e.x.ResetLocal(fmt.Sprintf("Synchronize=%s/%s", replyNames[r], tag))
+	if !over && ctx.Err() != nil {
+		// Shutdown began while this call was in flight with the context
+		// that shutdown cancels. A real gRPC client then fails the call
+		// with CANCELED, whatever the scheduler did with the request
+		// (answer 0); or the reply had just been received when the
+		// context was cancelled and is delivered normally (answer 1).
+		e.x.ResetLocal(fmt.Sprintf("Synchronize=%s?/%s", replyNames[r], tag))
+		lost = e.choose("Synchronize:ctx-cancelled[CANCELED,delivered]", 2, true) == 0
+	}
+	e.x.ResetLocal(fmt.Sprintf("Synchronize=%s/%v/%s", replyNames[r], lost, tag))
 
 	e.mu.Lock()
 	defer e.mu.Unlock()
 	e.runBoundary = true
+	if lost {
+		// The scheduler acted on the request (reply r), the worker only
+		// sees CANCELED. Belief model as for an RPC error (the worker's
+		// deadline does not move); remember when the lost reply left the
+		// scheduler unable to believe the worker is executing, in which
+		// case an exit is not a violation of the statement.
+		e.reqLog[len(e.reqLog)-1] += ">CANCELED(" + replyNames[r] + ")"
+		e.x.Logf("Synchronize #%d: reply %s lost, call fails with CANCELED", count, replyNames[r])
+		e.lostIdle = r == rIdle || (r == rNone && kind != kExec)
+		e.expectBackoff = true
+		return nil, status.Error(codes.Canceled, "context canceled")
+	}
 	e.reqLog[len(e.reqLog)-1] += ">" + replyNames[r]
 	e.x.Logf("Synchronize #%d: reply %s", count, replyNames[r])
 	next := timestamppb.New(e.abs(e.now + syncInterval))
